@@ -106,9 +106,10 @@ pub fn run_cases<F>(args: &Args, stream: u64, total: u64, case: F) -> Report
 where
     F: Fn(u64, &mut Rng, &mut Report) + Sync,
 {
+    let from: u64 = args.get("from").map(|v| v.parse().expect("from")).unwrap_or(0);
     let indices: Vec<u64> = match args.only {
         Some(i) => vec![i],
-        None => (0..total).collect(),
+        None => (from..total).collect(),
     };
     let threads = args.threads.max(1).min(indices.len().max(1));
     let mut merged = Report::new();
